@@ -119,6 +119,12 @@ def main():
         "C17-pinned-nosha256": ["C17"],
         "C04-pinned-uncompressed-identity": ["C04", "C10"],
     })
+    # hand-written patches kept as files: synchronisation defects that only the scheduler exploration sees (no data
+    # race, no package-level state, sequentially correct)
+    meta.update({
+        "C16-locked-memo-published-before-filled": ["C16"],
+        "C16-lock-order-deadlock": ["C16"],
+    })
     import json
     json.dump(meta, open(os.path.join(OUT, "expect.json"), "w"), indent=1, sort_keys=True)
     print("wrote %d mutants" % len(meta))
